@@ -55,7 +55,7 @@ fn build(ch: &mut Chooser, family: &str) -> (&'static str, Vec<u8>, String, bool
         "ooxml" => {
             let reader: &'static str = if ch.flag("open-with-xlsb") { ch.pick("reader-position-at-open", &["xlsb", "xlsb@8", "xlsb@end"]) } else { ch.pick("reader-position-at-open", &["xlsx", "xlsx@8", "xlsx@end"]) };
             let size = ch.pick("encrypted-package-size", &[5000usize, 8, 4095, 4096, 4097, 70000]);
-            let info = ch.choose("encryption-info", 4); // standard, agile, agile > 4096 bytes, absent
+            let info = ch.choose("encryption-info", 6); // standard, agile, agile > 4096 bytes, absent, extensible 3.3, extensible 4.3
             let dataspaces = !ch.flag("no-dataspaces-storage");
             let mut e: Vec<cfb::Entry> = vec![];
             if dataspaces {
@@ -69,6 +69,8 @@ fn build(ch: &mut Chooser, family: &str) -> (&'static str, Vec<u8>, String, bool
                 0 => e.push(cfb::Entry::stream("EncryptionInfo", { let mut v = vec![3, 0, 2, 0, 0x24, 0, 0, 0]; v.extend(cipher(216, 4)); v }, None)),
                 1 => e.push(cfb::Entry::stream("EncryptionInfo", { let mut v = vec![4, 0, 4, 0, 0x40, 0, 0, 0]; v.extend(b"<?xml version=\"1.0\" encoding=\"UTF-8\" standalone=\"yes\"?><encryption xmlns=\"http://schemas.microsoft.com/office/2006/encryption\"><keyData saltSize=\"16\"/></encryption>"); v.extend(cipher(900, 5)); v }, None)),
                 2 => e.push(cfb::Entry::stream("EncryptionInfo", { let mut v = vec![4, 0, 4, 0, 0x40, 0, 0, 0]; v.extend(cipher(5000, 6)); v }, None)),
+                4 => e.push(cfb::Entry::stream("EncryptionInfo", { let mut v = vec![3, 0, 3, 0, 0x34, 0, 0, 0]; v.extend(cipher(300, 14)); v }, None)),
+                5 => e.push(cfb::Entry::stream("EncryptionInfo", { let mut v = vec![4, 0, 3, 0, 0x34, 0, 0, 0]; v.extend(cipher(300, 15)); v }, None)),
                 _ => {}
             }
             let mut pkg = (size as u64).to_le_bytes().to_vec();
@@ -118,7 +120,7 @@ fn build(ch: &mut Chooser, family: &str) -> (&'static str, Vec<u8>, String, bool
             let n = 3 + extra;
             let keyinfo = ch.flag("manifest-keyinfo-element-first(OpenPGP)");
             let enc: Vec<usize> = match which { 0 => vec![1], 1 => vec![2], 2 => vec![n - 1], 3 => (1..n).collect(), _ => vec![1, n - 1] };
-            let book = ods::OBook { sheets: vec![ods::OSheet { name: "S".into(), rows: vec![ods::ORow { cells: vec![(ods::OCell::new(ods::OVal::Float("1".into(), "float")), 1)], repeat: 1 }], display: None }], encrypted_entries: enc.clone(), extra_manifest_entries: extra, manifest_keyinfo: keyinfo, ..Default::default() };
+            let book = ods::OBook { sheets: vec![ods::OSheet { name: "S".into(), rows: vec![ods::ORow { cells: vec![(ods::OCell::new(ods::OVal::Float("1".into(), "float")), 1)], repeat: 1 }], display: None }], encrypted_entries: enc.clone(), extra_manifest_entries: extra, manifest_keyinfo: keyinfo, manifest_comments: ch.flag("manifest-with-comments-and-line-breaks"), ..Default::default() };
             // the content of an encrypted package is ciphertext
             ("ods", ods::write_with_content(&book, &cipher(700, 11), if ch.flag("zip-stored") { Method::Stored } else { Method::Deflated }), format!("ods manifest with {n} entries, encryption-data on {enc:?}, keyinfo first: {keyinfo}"), true)
         }
@@ -190,7 +192,7 @@ fn huge_package(rep: &Report) {
 pub fn check(rep: &Report) {
     let t = crate::thorough(&rep.tier);
     huge_package(rep);
-    rep.rule("encrypted OOXML: EncryptedPackage of {8, 4095, 4096, 4097, 5000, 70000} bytes x EncryptionInfo {standard, agile, agile > 4096 bytes, absent} x DataSpaces storage present/absent x CFB layouts (v3/v4, 5 sector orders, mini order, unused entries, directory order, free sectors), opened with Xlsx and Xlsb from a reader positioned at the start, after the 8 magic bytes or at the end; BIFF: FILEPASS of 5 kinds (BIFF8 RC4, XOR obfuscation, CryptoAPI v2/v4; the 4-byte BIFF5 XOR form in a Book stream) directly after BOF or after WRITEPROTECT, record bodies garbled, mini stream or regular sectors, CFB layouts; ods: manifests with 3-5 entries and encryption-data on the first, a middle, the last, all or several entries, ciphertext content; converse: unencrypted workbooks of all four formats (xlsx under every encoding of C01, xls under CFB layouts with extra streams, names and strings that spell 'EncryptedPackage' / 'FILEPASS' / 'encryption-data') must open; full product for ods, <= 4 deviations (thorough: full product) for ooxml, biff and plain; non-trivial = non-default choice");
+    rep.rule("encrypted OOXML: EncryptedPackage of {8, 4095, 4096, 4097, 5000, 70000} bytes x EncryptionInfo {standard, agile, agile > 4096 bytes, absent, extensible 3.3 / 4.3} x DataSpaces storage present/absent x CFB layouts (v3/v4, 5 sector orders, mini order, unused entries, directory order, free sectors), opened with Xlsx and Xlsb from a reader positioned at the start, after the 8 magic bytes or at the end; BIFF: FILEPASS of 5 kinds (BIFF8 RC4, XOR obfuscation, CryptoAPI v2/v4; the 4-byte BIFF5 XOR form in a Book stream) directly after BOF or after WRITEPROTECT, record bodies garbled, mini stream or regular sectors, CFB layouts; ods: manifests (plain, or with comments and line breaks between and inside the entries) with 3-5 entries and encryption-data on the first, a middle, the last, all or several entries, ciphertext content; converse: unencrypted workbooks of all four formats (xlsx under every encoding of C01, xls under CFB layouts with extra streams, names and strings that spell 'EncryptedPackage' / 'FILEPASS' / 'encryption-data') must open; full product for ods, <= 4 deviations (thorough: full product) for ooxml, biff and plain; non-trivial = non-default choice");
     rep.assume("ciphertext is pseudo-random bytes; EncryptedPackage starts with its 8-byte size prefix");
     let stats = Mutex::new(Stats::default());
     ["ooxml", "biff", "ods", "plain"].par_iter().for_each(|fam| {
